@@ -36,7 +36,8 @@ pub struct Case {
 
 fn strategy(max_len: usize) -> impl Strategy<Value = Case> {
     (prop::sample::select(vec![Ty::U16, Ty::U32, Ty::U64, Ty::F32, Ty::F64, Ty::Str]), prop_oneof![2 => 1usize..8, 2 => 1usize..=max_len]).prop_flat_map(move |(ty, len)| {
-        let words = prop::collection::vec(prop_oneof![3 => any::<u64>(), 2 => 0u64..4, 1 => Just(0u64)], len);
+        // random bit patterns, tiny integers, zero, and bit patterns of small-magnitude floats (1e-30 .. 1) as found in sketches of huge sets
+        let words = prop::collection::vec(prop_oneof![3 => any::<u64>(), 2 => 0u64..4, 1 => Just(0u64), 2 => (0x3980_0000_0000_0000u64..0x3FF0_0000_0000_0000u64), 1 => (0x0D80_0000u64..0x3F80_0000u64)], len);
         let flips = prop_oneof![1 => Just(vec![]), 3 => prop::collection::vec(any::<u16>(), 0..=len.min(20)), 1 => prop::collection::vec(any::<u16>(), len..=2 * len)];
         let other = prop_oneof![5 => Just(None), 1 => (0usize..=len + 3).prop_map(Some)];
         (words, flips, other).prop_map(move |(base, flips, other_len)| Case { ty, base, flips, other_len: other_len.filter(|l| *l != len) })
@@ -61,31 +62,46 @@ fn call(f: impl FnOnce() -> Option<f64>) -> Res {
 
 trait Elem: PartialEq + Clone + std::fmt::Debug {
     fn decode(w: u64) -> Self;
-    /// a value different from self under PartialEq
-    fn other(&self) -> Self;
+    /// a value different from self under PartialEq; mode selects how far away (0/1: adjacent representable values)
+    fn other(&self, mode: u16) -> Self;
 }
 impl Elem for u16 {
     fn decode(w: u64) -> Self {
         w as u16
     }
-    fn other(&self) -> Self {
-        self.wrapping_add(1)
+    fn other(&self, mode: u16) -> Self {
+        match mode % 4 {
+            0 => self.wrapping_add(1),
+            1 => self.wrapping_sub(1),
+            2 => !*self,
+            _ => self.wrapping_add(0x55),
+        }
     }
 }
 impl Elem for u32 {
     fn decode(w: u64) -> Self {
         w as u32
     }
-    fn other(&self) -> Self {
-        self.wrapping_add(1)
+    fn other(&self, mode: u16) -> Self {
+        match mode % 4 {
+            0 => self.wrapping_add(1),
+            1 => self.wrapping_sub(1),
+            2 => !*self,
+            _ => self.wrapping_add(0x55),
+        }
     }
 }
 impl Elem for u64 {
     fn decode(w: u64) -> Self {
         w
     }
-    fn other(&self) -> Self {
-        self.wrapping_add(1)
+    fn other(&self, mode: u16) -> Self {
+        match mode % 4 {
+            0 => self.wrapping_add(1),
+            1 => self.wrapping_sub(1),
+            2 => !*self,
+            _ => self.wrapping_add(0x55),
+        }
     }
 }
 impl Elem for f32 {
@@ -97,12 +113,20 @@ impl Elem for f32 {
             (w % 1000) as f32
         }
     }
-    fn other(&self) -> Self {
-        if *self == 1.5 {
-            2.5
-        } else {
-            1.5
-        }
+    fn other(&self, mode: u16) -> Self {
+        let adj = |up: bool| {
+            // adjacent representable value (never equal to self under ==, never NaN/inf for finite self below MAX)
+            let b = self.to_bits();
+            let cand = if *self == 0.0 { f32::from_bits(1) } else if (*self > 0.0) == up { f32::from_bits(b + 1) } else { f32::from_bits(b - 1) };
+            if cand.is_finite() && cand != *self { cand } else { 1.5 }
+        };
+        let r = match mode % 4 {
+            0 => adj(true),
+            1 => adj(false),
+            2 => *self + 1.0,
+            _ => 1.5,
+        };
+        if r != *self && r.is_finite() { r } else if *self == 2.5 { 1.5 } else { 2.5 }
     }
 }
 impl Elem for f64 {
@@ -114,20 +138,27 @@ impl Elem for f64 {
             (w % 1000) as f64
         }
     }
-    fn other(&self) -> Self {
-        if *self == 1.5 {
-            2.5
-        } else {
-            1.5
-        }
+    fn other(&self, mode: u16) -> Self {
+        let adj = |up: bool| {
+            let b = self.to_bits();
+            let cand = if *self == 0.0 { f64::from_bits(1) } else if (*self > 0.0) == up { f64::from_bits(b + 1) } else { f64::from_bits(b - 1) };
+            if cand.is_finite() && cand != *self { cand } else { 1.5 }
+        };
+        let r = match mode % 4 {
+            0 => adj(true),
+            1 => adj(false),
+            2 => *self + 1.0,
+            _ => 1.5,
+        };
+        if r != *self && r.is_finite() { r } else if *self == 2.5 { 1.5 } else { 2.5 }
     }
 }
 impl Elem for String {
     fn decode(w: u64) -> Self {
         format!("k{:x}", w % 0xFFFFF)
     }
-    fn other(&self) -> Self {
-        format!("{}'", self)
+    fn other(&self, mode: u16) -> Self {
+        if mode % 2 == 0 { format!("{}'", self) } else { self.to_uppercase() + "_" }
     }
 }
 
@@ -135,9 +166,12 @@ fn build<T: Elem>(c: &Case) -> (Vec<T>, Vec<T>, usize) {
     let a: Vec<T> = c.base.iter().map(|w| T::decode(*w)).collect();
     let mut b = a.clone();
     let n = a.len();
-    let flipped: BTreeSet<usize> = c.flips.iter().map(|f| idx16(*f, n)).collect();
-    for i in &flipped {
-        b[*i] = a[*i].other();
+    let mut flipped: BTreeSet<usize> = BTreeSet::new();
+    for f in &c.flips {
+        let i = idx16(*f, n);
+        if flipped.insert(i) {
+            b[i] = a[i].other(*f);
+        }
     }
     if let Some(l) = c.other_len {
         if l < n {
@@ -435,4 +469,8 @@ pub fn replay(ctx: &Ctx, sub: &str, case: &Value) -> Result<(), String> {
         ctx.run_fixed(sub, &c, eval);
     }
     Ok(())
+}
+
+pub fn fuzz_strategy() -> impl Strategy<Value = Case> {
+    strategy(100)
 }
